@@ -28,7 +28,8 @@ def isSimpleEsc (c : UInt8) : Bool :=
 /-- The scan loop after the opening quote. Returns the raw literal (between the quotes), the number
 of bytes consumed including the closing quote, and whether an escape was seen.
 `avail` is the number of bytes of the buffer from the current position (for `cursor+5 >= buflen`). -/
-def scanBody : List UInt8 → Except Res (List UInt8 × Nat × Bool)
+def scanBody (l : List UInt8) : Except Res (List UInt8 × Nat × Bool) :=
+  match l with
   | [] => .error .oob
   | c :: rest =>
     if c == 92 then
@@ -41,14 +42,12 @@ def scanBody : List UInt8 → Except Res (List UInt8 × Nat × Bool)
           | .error r => .error r
         else if e == 117 then
           -- `cursor+5 >= buflen`: after the 'u' at least five more bytes must exist in the buffer
-          match rest2 with
-          | h1 :: h2 :: h3 :: h4 :: x :: rest3 =>
-            if isHex h1 && isHex h2 && isHex h3 && isHex h4 then
-              match scanBody (x :: rest3) with
-              | .ok (body, n, _) => .ok (c :: e :: h1 :: h2 :: h3 :: h4 :: body, n + 6, true)
-              | .error r => .error r
-            else .error .syntaxErr
-          | _ => .error .syntaxErr
+          if rest2.length < 5 then .error .syntaxErr
+          else if isHex (rest2.getD 0 0) && isHex (rest2.getD 1 0) && isHex (rest2.getD 2 0) && isHex (rest2.getD 3 0) then
+            match scanBody (rest2.drop 4) with
+            | .ok (body, n, _) => .ok (c :: e :: rest2.take 4 ++ body, n + 6, true)
+            | .error r => .error r
+          else .error .syntaxErr
         else .error .syntaxErr
     else if c == 34 then .ok ([], 1, false)
     else if c == 0 then .error .syntaxErr
@@ -56,6 +55,10 @@ def scanBody : List UInt8 → Except Res (List UInt8 × Nat × Bool)
       match scanBody rest with
       | .ok (body, n, esc) => .ok (c :: body, n + 1, esc)
       | .error r => .error r
+termination_by l.length
+decreasing_by
+  all_goals simp only [List.length_cons, List.length_drop]
+  all_goals omega
 
 def hexToInt (c : UInt8) : Nat := Gen.dec_hexToInt.getD c.toNat 0
 def unescapeMap (c : UInt8) : UInt8 := (Gen.dec_unescapeMap.getD c.toNat 0).toUInt8
@@ -66,31 +69,29 @@ def code4 (h1 h2 h3 h4 : UInt8) : Nat :=
 /-- `unescapeString` as a function from the raw literal to the decoded bytes. The in-place
 write cursor never passes the read cursor (every escape is at least as long as its expansion);
 that is `unescape_length_le`. `src+11 < end` is "at least 12 bytes remain from the backslash". -/
-def unescape : List UInt8 → List UInt8
+def unescape (l : List UInt8) : List UInt8 :=
+  match l with
   | [] => []
   | c :: rest =>
-    if c == 92 then
+    if c != 92 then c :: unescape rest
+    else
       match rest with
       | [] => []            -- not reachable for scanned literals
       | e :: rest2 =>
         if e != 117 then unescapeMap e :: unescape rest2
         else
-          match rest2 with
-          | h1 :: h2 :: h3 :: h4 :: rest3 =>
-            let code := code4 h1 h2 h3 h4
-            if 0xd800 ≤ code && code < 0xdc00 && (c :: rest).length ≥ 12 then
-              match rest3 with
-              | 92 :: 117 :: l1 :: l2 :: l3 :: l4 :: rest4 =>
-                let lo := code4 l1 l2 l3 l4
-                if 0xdc00 ≤ lo && lo < 0xe000 then
-                  Spec.utf8Encode (((code - 0xd800) <<< 10 ||| (lo - 0xdc00)) + 0x10000) ++ unescape rest4
-                else Spec.utf8Encode code ++ unescape rest3
-              | _ => Spec.utf8Encode code ++ unescape rest3
-            else Spec.utf8Encode code ++ unescape rest3
-          | _ => []         -- not reachable for scanned literals
-    else c :: unescape rest
-termination_by l => l.length
-decreasing_by all_goals simp_wf; all_goals omega
+          -- char(src,2..5); a scanned literal always has the four digits
+          let code := code4 (rest2.getD 0 0) (rest2.getD 1 0) (rest2.getD 2 0) (rest2.getD 3 0)
+          let rest3 := rest2.drop 4
+          let lo := code4 (rest3.getD 2 0) (rest3.getD 3 0) (rest3.getD 4 0) (rest3.getD 5 0)
+          if 0xd800 ≤ code && code < 0xdc00 && l.length ≥ 12 &&
+              rest3.getD 0 0 == 92 && rest3.getD 1 0 == 117 && 0xdc00 ≤ lo && lo < 0xe000 then
+            Spec.utf8Encode (((code - 0xd800) <<< 10 ||| (lo - 0xdc00)) + 0x10000) ++ unescape (rest3.drop 6)
+          else Spec.utf8Encode code ++ unescape rest3
+termination_by l.length
+decreasing_by
+  all_goals simp only [List.length_cons, List.length_drop]
+  all_goals omega
 
 /-- `stringDecoder.decodeByte` -/
 def decodeString (s : List UInt8) (skipped : Nat := 0) : Res :=
